@@ -369,6 +369,16 @@ const N: usize = 5;
 /// number of mock compliance modules
 const K: usize = 3;
 const MAX_TTL: u32 = 200_000;
+/// universe indices `FIRST_ACCOUNT..N` are ACCOUNT addresses (G..., can be the target of a muxed
+/// M... address with an id), the others are contract addresses (C..., cannot be multiplexed).
+/// `Env::mock_auths` can only mock contract addresses, so an invocation authorized by an account
+/// runs under `mock_all_auths` — only when the authorizing set covers the signer the entry point
+/// asks for (otherwise the accounts are dropped from the set and the exact path is taken); the
+/// demanded authorization is observed and compared in both cases.
+const FIRST_ACCOUNT: usize = 3;
+fn is_account(i: usize) -> bool {
+    i >= FIRST_ACCOUNT
+}
 /// ComplianceHook in declaration order: Transferred, Created, Destroyed, CanTransfer, CanCreate
 const H_TRANSFERRED: usize = 0;
 const H_CREATED: usize = 1;
@@ -472,6 +482,9 @@ struct Sim {
     now: u32,
     min_temp: u32,
     snap: Snap,
+    /// when set, a `transfer` whose destination is an account is sent to a MUXED address (account +
+    /// mux id) with 40 % probability; the chosen id is recorded in the op line (`lu=`)
+    mux: Option<Rng>,
 }
 
 impl Sim {
@@ -479,13 +492,22 @@ impl Sim {
     /// registered) + K mock modules
     fn new(min_temp: u32, start: u32, admin: usize) -> Sim {
         let e = new_env(start, min_temp, MAX_TTL);
-        let u = Universe::new(&e, N);
+        // accounts first (generated through the muxed-address generator, the only public way to get
+        // an account address), then contract addresses
+        let mut u = Universe::new(&e, 0);
+        for i in 0..N {
+            if is_account(i) {
+                u.push(<MuxedAddress as soroban_sdk::testutils::MuxedAddress>::generate(&e).address());
+            } else {
+                u.push(<Address as soroban_sdk::testutils::Address>::generate(&e));
+            }
+        }
         let idv = e.register(Idv, ());
         let comp = e.register(RealComp, (u.a(admin).clone(),));
         let modules: Vec<Address> = (0..K).map(|_| e.register(Module, (comp.clone(),))).collect();
         let tok = e.register(Tok, (u.a(admin).clone(), comp.clone(), idv.clone()));
         call_all_auth(&e, &comp, "bind_token", args(&e, [v(&e, &tok), v(&e, u.a(admin))])).expect("bind");
-        let mut s = Sim { e, u, tok, idv, comp, modules, admin, now: start, min_temp, snap: Snap::default() };
+        let mut s = Sim { e, u, tok, idv, comp, modules, admin, now: start, min_temp, snap: Snap::default(), mux: None };
         s.snap = s.read();
         s
     }
@@ -574,7 +596,10 @@ impl Sim {
             match ev.name.as_str() {
                 "mint" => out.push(format!("mint:{}:{}", t0, amt)),
                 "burn" => out.push(format!("burn:{}:{}", t0, amt)),
-                "transfer" => out.push(format!("transfer:{}:{}:{}", t0, t1, amt)),
+                "transfer" => match ev_field(&ev.data, "to_muxed_id") {
+                    Some(xdr::ScVal::U64(id)) => out.push(format!("transfer:{}:{}:{}:mux{}", t0, t1, amt, id)),
+                    _ => out.push(format!("transfer:{}:{}:{}", t0, t1, amt)),
+                },
                 "approve" => out.push(format!(
                     "approve:{}:{}:{}:{}",
                     t0,
@@ -671,7 +696,17 @@ impl Sim {
     /// one entry point of the token or of the compliance contract through a real invocation with
     /// exactly `auth` authorizing. For `add_module` / `remove_module`, `a = [module, operator]`
     /// and `lu` carries the hook index.
+    /// For `transfer`, `lu` carries the mux id of the destination: 0 = plain address, `u32::MAX` =
+    /// id `u64::MAX`, otherwise the id itself (the entry point takes a `MuxedAddress`).
     fn exec(&mut self, t: &mut Trace, kind: &str, a: &[usize], amount: i128, lu: u32, b: bool, auth: &[usize]) {
+        let mut lu = lu;
+        if kind == "transfer" && lu == 0 && is_account(a[1]) {
+            if let Some(r) = self.mux.as_mut() {
+                if r.chance(60) {
+                    lu = *r.pick(&[1u32, 2, 77, u32::MAX, 1 << 31]);
+                }
+            }
+        }
         let e = self.e.clone();
         let e = &e;
         let ad = |i: usize| -> Val { self.u.a(i).into_val(e) };
@@ -680,7 +715,12 @@ impl Sim {
             "mint" => ("mint", args(e, [ad(a[0]), v(e, amount), ad(a[1])])),
             "burn" => ("burn", args(e, [ad(a[0]), v(e, amount), ad(a[1])])),
             "transfer" => {
-                let to: MuxedAddress = self.u.a(a[1]).clone().into();
+                let to: MuxedAddress = if lu == 0 {
+                    self.u.a(a[1]).clone().into()
+                } else {
+                    let id = if lu == u32::MAX { u64::MAX } else { lu as u64 };
+                    <MuxedAddress as soroban_sdk::testutils::MuxedAddress>::new(self.u.a(a[1]).clone(), id)
+                };
                 ("transfer", args(e, [ad(a[0]), v(e, to), v(e, amount)]))
             }
             "transfer_from" => ("transfer_from", args(e, [ad(a[0]), ad(a[1]), ad(a[2]), v(e, amount)])),
@@ -710,9 +750,21 @@ impl Sim {
             }
             _ => unreachable!(),
         };
+        // who the entry point asks for: the holder / spender / owner (first address) of a holder
+        // op, the operator (last address) of everything else
+        let right = match kind {
+            "transfer" | "transfer_from" | "approve" => a[0],
+            _ => *a.last().unwrap(),
+        };
+        let mut auth: Vec<usize> = auth.to_vec();
+        let all_auth = auth.iter().any(|i| is_account(*i)) && auth.contains(&right);
+        if !all_auth {
+            auth.retain(|i| !is_account(*i));
+        }
+        let auth = &auth[..];
         t.op(&format!("rwa {} a={} amt={} lu={} b={} auth={}", kind, join(a), amount, lu, if b { 1 } else { 0 }, join(auth)));
         let signers: Vec<&Address> = auth.iter().map(|&i| self.u.a(i)).collect();
-        let r = call(e, &target, func, argv, &signers);
+        let r = if all_auth { call_all_auth(e, &target, func, argv) } else { call(e, &target, func, argv, &signers) };
         match r {
             Some(val) => {
                 let dem = join(&demanded(e, &self.u));
@@ -811,6 +863,18 @@ fn pick_amount(rng: &mut Rng, s: &Snap, from: Option<usize>, spender: Option<usi
         23 => bal / 2,
         _ => rng.range(1, 1000) as i128,
     }
+}
+
+/// (holder, receiver, spender) distinct from the admin; the receiver is an ACCOUNT address so that
+/// transfers to it can be muxed
+fn cast(rng: &mut Rng, admin: usize) -> (usize, usize, usize) {
+    let accounts: Vec<usize> = (0..N).filter(|x| is_account(*x) && *x != admin).collect();
+    let to = *rng.pick(&accounts);
+    let mut rest: Vec<usize> = (0..N).filter(|x| *x != admin && *x != to).collect();
+    let i = rng.below(rest.len() as u64) as usize;
+    let f = rest.remove(i);
+    let sp = *rng.pick(&rest);
+    (f, to, sp)
 }
 
 /// an amount that passes an upper bound (`upper` itself, just below, half, small, zero)
@@ -954,9 +1018,10 @@ fn scenario_directed(t: &mut Trace) {
 fn scenario_single_gates(t: &mut Trace, rng: &mut Rng) {
     let admin = rng.below(N as u64) as usize;
     let others: Vec<usize> = (0..N).filter(|x| *x != admin).collect();
-    let r = rng.below(4) as usize;
-    let (f, to, sp) = (others[r % 4], others[(r + 1) % 4], others[(r + 2) % 4]);
+    let _ = others;
+    let (f, to, sp) = cast(rng, admin);
     let mut s = Sim::new(1, 100, admin);
+    s.mux = Some(rng.fork());
     t.seq(&s.label("single gates"));
     s.single_module(t);
     s.exec(t, "mint", &[f, admin], 10_000, 0, false, &[admin]);
@@ -1016,8 +1081,10 @@ fn scenario_single_gates(t: &mut Trace, rng: &mut Rng) {
 fn scenario_gate_sweep(t: &mut Trace, rng: &mut Rng, per_combo: usize) {
     let admin = rng.below(N as u64) as usize;
     let others: Vec<usize> = (0..N).filter(|x| *x != admin).collect();
-    let (f, to, sp) = (others[0], others[1], others[2]);
+    let _ = others;
+    let (f, to, sp) = cast(rng, admin);
     let mut s = Sim::new(1, 100, admin);
+    s.mux = Some(rng.fork());
     t.seq(&s.label("gate sweep"));
     s.single_module(t);
     s.exec(t, "mint", &[f, admin], 1_000_000, 0, false, &[admin]);
@@ -1167,6 +1234,46 @@ fn scenario_modules_directed(t: &mut Trace) {
     s.exec(t, "transfer", &[1, 2], 1, 0, false, &[1]);
 }
 
+/// `FungibleToken::transfer` takes a `MuxedAddress`: a destination carrying a mux id must go
+/// through the same gates, move the same balance, notify the compliance contract and its modules
+/// exactly once, and emit a `transfer` event whose `to` is the underlying account
+fn scenario_muxed_directed(t: &mut Trace) {
+    let mut s = Sim::new(1, 100, 0);
+    t.seq(&s.label("directed muxed destination"));
+    s.single_module(t);
+    s.exec(t, "add_module", &[1, 0], 0, H_TRANSFERRED as u32, false, &[0]);
+    s.exec(t, "mint", &[1, 0], 1000, 0, false, &[0]);
+    s.exec(t, "transfer", &[1, 3], 15, 0, false, &[1]);
+    s.exec(t, "transfer", &[1, 3], 15, 7, false, &[1]);
+    s.exec(t, "transfer", &[1, 3], 15, u32::MAX, false, &[1]);
+    s.exec(t, "transfer", &[1, 3], 15, 7, false, &[2]);
+    s.exec(t, "transfer", &[1, 2], 15, 0, false, &[1]);
+    // an account as sender (authorized under mock_all_auths), to itself and to another account
+    s.exec(t, "transfer", &[3, 3], 15, 3, false, &[3]);
+    s.exec(t, "transfer", &[3, 4], 5, 1 << 31, false, &[3]);
+    s.exec(t, "transfer", &[3, 4], 5, 2, false, &[4]);
+    s.exec(t, "approve", &[3, 1], 20, 5000, false, &[3]);
+    s.exec(t, "transfer_from", &[1, 3, 4], 5, 0, false, &[1]);
+    // the gates hold for a muxed destination too
+    s.exec(t, "freeze", &[1, 0], 900, 0, false, &[0]);
+    s.exec(t, "transfer", &[1, 3], 41, 9, false, &[1]);
+    s.exec(t, "transfer", &[1, 3], 40, 9, false, &[1]);
+    s.exec(t, "unfreeze", &[1, 0], 500, 0, false, &[0]);
+    s.exec(t, "pause", &[0], 0, 0, false, &[0]);
+    s.exec(t, "transfer", &[1, 3], 1, 9, false, &[1]);
+    s.exec(t, "unpause", &[0], 0, 0, false, &[0]);
+    s.exec(t, "set_frozen", &[3, 0], 0, 0, true, &[0]);
+    s.exec(t, "transfer", &[1, 3], 1, 9, false, &[1]);
+    s.exec(t, "set_frozen", &[3, 0], 0, 0, false, &[0]);
+    s.env_id(t, 3, false);
+    s.exec(t, "transfer", &[1, 3], 1, 9, false, &[1]);
+    s.env_id(t, 3, true);
+    s.env_comp(t, true, true, i128::MAX, &[3]);
+    s.exec(t, "transfer", &[1, 3], 1, 9, false, &[1]);
+    s.env_comp(t, true, true, i128::MAX, &[]);
+    s.exec(t, "transfer", &[1, 3], 1, 9, false, &[1]);
+}
+
 /// every ordered registration of a subset of the modules (16 arrangements of 3 modules) for
 /// CanTransfer and CanCreate, crossed with every combination of module verdicts (Gray-code walk,
 /// one module re-scripted per step; a rejection is a flag, an amount cap, or a blocked party), for
@@ -1193,8 +1300,10 @@ fn scenario_module_matrix(t: &mut Trace, rng: &mut Rng, arrangements: usize) {
     for arr in all.iter().take(arrangements) {
         let admin = rng.below(N as u64) as usize;
         let others: Vec<usize> = (0..N).filter(|x| *x != admin).collect();
-        let (f, to, sp) = (others[0], others[1], others[2]);
+        let _ = others;
+        let (f, to, sp) = cast(rng, admin);
         let mut s = Sim::new(1, 100, admin);
+        s.mux = Some(rng.fork());
         let arr_s: Vec<String> = arr.iter().map(|x| x.to_string()).collect();
         t.seq(&s.label(&format!("module matrix order={}", if arr_s.is_empty() { "-".into() } else { arr_s.join(".") })));
         s.exec(t, "mint", &[f, admin], 100_000, 0, false, &[admin]);
@@ -1248,6 +1357,7 @@ fn scenario_random(t: &mut Trace, rng: &mut Rng, k: u64, seed: u64, len: u64) {
     let start = *rng.pick(&[2u32, 100, 5000]);
     let admin = rng.below(N as u64) as usize;
     let mut s = Sim::new(min_temp, start, admin);
+    s.mux = Some(rng.fork());
     t.seq(&s.label(&format!("rand k={} seed={}", k, seed)));
     // a random initial registry: per hook a random subset of the modules in a random order
     for h in 0..5 {
@@ -1451,6 +1561,7 @@ fn main() {
     let mut rng = Rng::new(seed);
     scenario_directed(&mut t);
     scenario_modules_directed(&mut t);
+    scenario_muxed_directed(&mut t);
     scenario_module_matrix(&mut t, &mut rng, if thorough { 16 } else { 6 });
     for _ in 0..(if thorough { 4 } else { 2 }) {
         scenario_single_gates(&mut t, &mut rng);
